@@ -265,3 +265,108 @@ def obligations(P, A, native_for=None):
         [("FALSE_create_only_after_try_open_reuse", A, [_or([b_and(c.guard, b_not(A.some_before(c, reuse))) for c in create])])],
         concretise=concretise, static_checks=checks))
     return obs
+
+
+# ---------------------------------------------------------------- r3 (C11): the set only touches its own files
+
+FS_OPS = ("remove_file", "open_new", "open_existing")
+
+
+def r3_obligation(P, A):
+    """`remove_file` / `open_existing` / `open_new` are only ever called with a path built from the set's directory joined with
+    ONE name that came out of `read` (the file set's own list) or out of `file_name(..)`. Static provenance of the path
+    arguments (single-definition def chains, `Abstraction.derive`) + precedence queries on the four bodies involved."""
+    checks = []
+    R = cfgabs.Abstraction(P, P.find_fn("ActiveFileSet", "apply_retention"), name="apply_retention")
+    C = cfgabs.Abstraction(P, P.find_fn("ActiveFile", "try_open_create"), name="try_open_create")
+    U = cfgabs.Abstraction(P, P.find_fn("ActiveFile", "try_open_reuse"), name="try_open_reuse")
+    # who calls the three filesystem operations at all
+    callers = set()
+    for body in P.bodies:
+        if body.kind != "fn":
+            continue
+        for blk in body.blocks.values():
+            t = blk.term
+            if t and t[0] == "call":
+                try:
+                    pc = cfgabs.Program.parse_callee(t[2])
+                except Exception:
+                    continue
+                if pc["method"] in FS_OPS and (pc["trait"] == "Filesystem" or pc["self_ty"] in ("Filesystem",)):
+                    if body.trait != "Filesystem":          # forwarding impls (&F, Box<dyn ..>) and StdFilesystem itself
+                        callers.add("%s::%s" % (body.self_ty, body.method))
+    want = {"ActiveFileSet::apply_retention", "ActiveFile::try_open_create", "ActiveFile::try_open_reuse"}
+    checks.append(("the only callers of Filesystem::{remove_file, open_new, open_existing} outside Filesystem impls are %s (found %s)" % (
+        sorted(want), sorted(callers)), callers == want))
+    # try_open_*: the path handed to the filesystem is the function's own path parameter
+    for X, op in ((C, "open_new"), (U, "open_existing")):
+        es = [e for e in X.effects if e.kind == "call" and e.method in FS_OPS]
+        checks.append(("%s calls exactly %s, with the path derived as as_ref(_2) (%s)" % (X.name, op, [(e.method, X.derive(e.ops[1])) for e in es]),
+                       len(es) == 1 and es[0].method == op and X.derive(es[0].ops[1]) == "as_ref(_2)"))
+    # apply_retention: remove_file(dir joined with one popped member of the set's own list)
+    rem = [e for e in R.effects if e.kind == "call" and e.method in FS_OPS]
+    frm = R.calls(r"^<PathBuf as From>::from$")
+    psh = R.calls(r"^PathBuf::push$")
+    ok = bool(rem) and all(e.method == "remove_file" and R.derive(e.ops[1]) == "deref(from(_1(ActiveFileSet).dir))" for e in rem)
+    checks.append(("apply_retention only calls remove_file, on a PathBuf made from self.dir (%s)" % sorted(set(R.derive(e.ops[1]) for e in rem)), ok))
+    ploc = sorted(set(e.dest for e in frm))
+    checks.append(("apply_retention: the path is pushed to at one site, with unwrap(pop(self.file_set)) (%s)" % sorted(set(R.derive(e.ops[1]) for e in psh)),
+                   len(ploc) == 1 and bool(psh) and len(set(e.blk for e in psh)) == 1 and all(
+                       e.args[0] == ploc[0] and R.derive(e.ops[1]) == "unwrap(pop(_1(ActiveFileSet).file_set))" for e in psh)))
+    others = [e for e in R.effects if e.kind == "call" and e not in psh and any(a == (ploc[0] if ploc else "?") and R.arg_is_mut_ref(e, i) for i, a in enumerate(e.args))]
+    checks.append(("apply_retention: nothing else mutates the path (%s)" % [e.name for e in others][:3], not others))
+    # who writes ActiveFileSet::file_set
+    writers = set()
+    for body in P.bodies:
+        if body.kind != "fn" or body.self_ty != "ActiveFileSet":
+            continue
+        for blk in body.blocks.values():
+            for st in blk.stmts:
+                if st[0] == "assign" and st[1][0] == "field" and "Vec<std::string::String>" in st[1][3]:
+                    writers.add(body.method)
+    checks.append(("ActiveFileSet::file_set is assigned only in `read` (found %s)" % sorted(writers), writers <= {"read"} and "read" in writers))
+    # on_batch: the two paths
+    create = A.calls(r"^ActiveFile::try_open_create$")
+    reuse = A.calls(r"^ActiveFile::try_open_reuse$")
+    read = A.calls(r"^ActiveFileSet::read$")
+    cfn = A.calls(r"^ActiveFileSet::current_file_name$")
+    pushes = A.calls(r"^PathBuf::push$")
+    must = []
+    if len(create) == 1 and len(reuse) == 1 and len(read) == 1 and len(cfn) == 1:
+        pc_, pu_ = create[0].args[1], reuse[0].args[1]
+        push_c = [e for e in pushes if e.args[0] == pc_]
+        push_u = [e for e in pushes if e.args[0] == pu_]
+        dc, du = A.derive(create[0].ops[1]), A.derive(reuse[0].ops[1])
+        checks.append(("on_batch: try_open_create gets a PathBuf made from self.dir (%s), pushed to once with the result of file_name(..) (%s)" % (
+            dc, [A.derive(e.ops[1])[:24] for e in push_c]),
+            re.fullmatch(r"from\(clone\(_1\.1\(Worker\)\.dir\)\)", dc) is not None and len(push_c) == 1 and A.derive(push_c[0].ops[1]).startswith("file_name(")))
+        setv = A.derive(read[0].ops[0])
+        checks.append(("on_batch: try_open_reuse gets a PathBuf made from self.dir (%s), pushed to once with the payload of current_file_name "
+                       "of the file set `read` filled (%s)" % (du, [A.derive(e.ops[1])[:40] for e in push_u]),
+                       du == "from(_1.1(Worker).dir)" and len(push_u) == 1 and
+                       A.derive(push_u[0].ops[1]) == "current_file_name(%s) as Some.0" % setv and A.derive(cfn[0].ops[0]) == setv))
+        mut = [e for e in A.effects if e.kind == "call" and e not in pushes and
+               any(a in (pc_, pu_) and A.arg_is_mut_ref(e, i) for i, a in enumerate(e.args))]
+        checks.append(("on_batch: nothing but the two pushes mutates the two paths (%s)" % [e.name for e in mut][:3], not mut))
+        if len(push_c) == 1 and len(push_u) == 1:
+            must = [("create_after_its_push", A, [b_and(create[0].guard, b_not(A.some_before(create[0], push_c)))]),
+                    ("reuse_after_its_push", A, [b_and(reuse[0].guard, b_not(A.some_before(reuse[0], push_u)))]),
+                    ("current_file_name_only_after_read", A, [b_and(cfn[0].guard, b_not(A.some_before(cfn[0], read)))])]
+    else:
+        checks.append(("on_batch: one call site each of try_open_create, try_open_reuse, read, current_file_name", False))
+    # apply_retention, per iteration: from < push < remove_file
+    v = _or([b_and(x.guard, b_not(_or([b_and(f.guard, p.guard) for f in frm for p in psh
+                                      if f.node[1] == x.node[1] and p.node[1] == x.node[1] and R.before(f, p) and R.before(p, x)])))
+             for x in rem])
+    must.append(("retention_removes_only_dir_joined_with_one_popped_member", R, [v]))
+    wit = [("retention_reaches_remove_file_twice", R, [b_and(*[x.guard for x in rem[:2]])] if len(rem) >= 2 else [False]),
+           ("on_batch_reaches_try_open_reuse", A, [_or([e.guard for e in reuse])])]
+    false = [("FALSE_remove_file_never_called", R, [_or([x.guard for x in rem])]),
+             ("FALSE_create_only_after_reuse_push", A, [_or([b_and(c.guard, b_not(A.some_before(c, [e for e in pushes if e.args[0] != c.args[1]]))) for c in create])])]
+    return CfgObligation(
+        "K3_r3_only_own_paths_reach_the_filesystem", [A, R, C, U],
+        [FN, "emit_file::ActiveFileSet::apply_retention", "emit_file::ActiveFile::try_open_create", "emit_file::ActiveFile::try_open_reuse"],
+        "static provenance of the path arguments over single-definition def chains + precedence queries on all abstract paths of the four bodies "
+        "(apply_retention's loop unrolled 2 iterations); WHICH names `read` admits into the set (membership = starts_with(prefix) && ends_with(ext)) "
+        "is the Kani kernel K2, not this obligation",
+        must, wit, false, static_checks=checks)
